@@ -340,7 +340,7 @@ def run_harness(h, overlay, tdir, logdir, extra=None, tag=""):
         cmd += ["--cbmc-args"] + h.cbmc.split(",")
     t0 = time.time()
     # the rlimit applies to cargo/kani-compiler/cbmc alike; rustc needs address space too
-    rc, to = run_cmd(cmd, overlay, log, h.timeout, max(h.mem, 12))  # address-space cap (virtual); the scheduler budgets h.mem
+    rc, to = run_cmd(cmd, overlay, log, h.timeout, int(os.environ.get("VERIF_CAP_GB", "0")) or max(h.mem, 12))  # address-space cap (virtual); the scheduler budgets h.mem
     wall = time.time() - t0
     text = open(log, errors="replace").read()
     if to:
